@@ -93,7 +93,7 @@ PROPS['C09'] = dict(
           '.panic outcome) returns a statement or an error value, never a panic; C09_parse_no_panic the same for every token list; '
           'C09_unquote_guard: the quote-stripping slice is only taken on a terminated token of length >= 2. Termination: the model is '
           'total with fuel; that the initial fuel is never exhausted (every loop iteration / recursive production consumes a token) '
-          'is proved in Mkdb/Proofs/Fuel.lean when present in the audit list, otherwise observed (no `.fuel` outcome on any run). '
+          'is proved (C09_scan_terminates, C09_parse_terminates, C09_total). Memory: what the front end BUILDS is linear in the input - C09_token_count_linear (at most one token per input rune), C09_token_text_linear (token text at most the input bytes + 2), C09_ast_size_linear / C09_output_linear (the size of the returned statement - every constructor, list cell and text byte - is at most 3 * runes + input bytes + 11), C09_recursion_depth_linear / C09_parse_depth_input (the nesting depth of every condition tree, which is what the Go stack pays in parser and evaluator, is at most the number of tokens consumed), for every input and every fuel; transient allocations of the Go code (the 1024-byte read buffer, per-token upper-case copies, append slack, error strings that embed one token once) are not modelled. '
           'Limit of the claim: the theorems bound the recursion of the model by fuel linear in the input, the Go stack is finite - a statement of millions of nested OR / AND terms (25 MB of text) overflows it in the parser, two million terms in the evaluator; no check generates inputs of that size, the claim is for inputs whose nesting the Go stack holds (about a million terms). Tie: the panic-site inventory of sql/*.go and the token table are re-extracted every run; scanner tokens, parse outcome '
           'class, error kind and AST are compared with the real scanner+parser on all token sequences of length <= 2-3 over the full '
           'vocabulary, every truncation and mutation of generated statements, unterminated quotes, huge numbers, random bytes incl. '
